@@ -75,7 +75,8 @@ ASSUMPTIONS = [
     "excluded by construction, counted (known finding F27): the result of a lazy filter (map select reject selectattr "
     "rejectattr) or an async iterable of the data reaching a consumer that is not async-aware (sort min max reverse batch "
     "last length tojson in *args unpacking 'is iterable' printing string ~)",
-    "excluded, counted (finding C09-SUM, sync sum() vs async '+'-loop): sum over values that may be floats or with a non-integer start",
+    "excluded, counted (known finding F41: async unique / slice list their input when called, the sync ones lazily): pipelines "
+    "in which evaluating the input of a unique / slice stage raises (decided by listing that input in the sync environment)",
     "awaitable attributes / items (wrap=true) are only read by compiled attribute and subscript expressions, coroutine test "
     "functions only by compiled 'is' tests (filters that look attributes up or call tests themselves do not await them)",
     "native environments: generate() is not compared (chunks are not strings)",
@@ -87,7 +88,6 @@ MAX_OUT = 50000
 _ADDR = re.compile(r" at 0x[0-9a-f]{4,}", re.I)
 _TAG = re.compile(r"\{[{%](.*?)[}%]\}", re.S)
 _NT = re.compile(r"\w\(|^-?\s*(for|include|import|from|extends|block|call|filter)\b|\|\s*\w|\bis\s+\w")
-SUM_EXCLUSION = True   # finding C09-SUM (async sum differs from the builtin sum): drop when /repo is repaired
 
 _state = {}
 
@@ -575,42 +575,6 @@ def _mask_expr(tree, mask):
     return ex(tree), k[0]
 
 
-def _has_float(j):
-    if isinstance(j, float):
-        return True
-    if isinstance(j, list):
-        return any(_has_float(x) for x in j)
-    if isinstance(j, dict):
-        if j.get("$") == "float":
-            return True
-        return any(_has_float(x) for x in j.values())
-    return False
-
-
-def _sum_excluded_expr(tree, datas):
-    """F35: the builtin sum (sync) and the '+' loop (async) differ for floats and non-numeric start values."""
-    sums = [n for n in gexpr.walk(tree) if n[0] == "filter" and n[1] == "sum"]
-    if not sums:
-        return False
-    for n in gexpr.walk(tree):
-        if n[0] == "const" and (isinstance(n[1], float) or isinstance(n[1], dict)):
-            return True
-        if n[0] == "bin" and n[1] in ("/", "**"):
-            return True
-        if n[0] == "filter" and n[1] in ("float", "round"):
-            return True
-    if any(_has_float(d) for d in datas):
-        return True
-    for s in sums:
-        for kw, v in s[4]:
-            if kw == "start" and not (v[0] == "const" and type(v[1]) is int):
-                if not (v[0] == "name" and all(type(d.get(v[1])) is int for d in datas)):
-                    return True
-        if s[3]:
-            return True
-    return False
-
-
 def _plan_expr(case):
     from vt.ref import evalexpr as ref
 
@@ -619,8 +583,6 @@ def _plan_expr(case):
         ref.static_check(tree)
     except ref.RefDecline:
         raise core.Discard()
-    if SUM_EXCLUSION and _sum_excluded_expr(tree, datas):
-        raise core.Excluded()
     keep = []
     for enc in datas:
         try:
@@ -728,7 +690,7 @@ SGEN_OUT = ("unique", "slice", "batch", "reverse")
 SEQ_OUT = ("list", "sort", "groupby")
 SYNC_ONLY_STAGES = ("sort", "reverse", "batch")
 SYNC_ONLY_SINKS = ("length", "min", "max", "last", "tojson", "in", "star", "unpack", "iterable", "print", "string", "sortjoin")
-AWARE_SINKS = ("join", "list", "first", "sum", "for", "twice", "afilt", "atest")
+AWARE_SINKS = ("join", "list", "first", "sum", "for", "twice", "afilt", "atest", "ucall")
 ADDRESS_SINKS = ("print", "string")
 EMBEDDINGS = ("plain", "set", "setblock", "filterblock", "macroarg", "callblock", "if", "macrobody")
 N_FOR_VARIANTS = 11
@@ -880,6 +842,8 @@ def pipe_source(p):
         E = P + "|first|afilt"
     elif sink == "atest":
         E = "(" + P + "|first) is atest" + ("(%s)" % _lit(sp["n"]) if "n" in sp else "")
+    elif sink == "ucall":
+        E = "ufn(" + P + "|first)"   # ufn.unsafe_callable / alters_data: SecurityError in both sandboxed environments
     elif sink == "unpack":
         stmt = "{% set a, b = " + P + " %}{{ a }}|{{ b }}"
     elif sink == "twice":
@@ -923,12 +887,6 @@ def pipe_kinds(p, wrap):
     return f27, address
 
 
-def _pipe_uses_sum(p):
-    if p["sink"][0] == "sum":
-        return True
-    return any(name == "map" and par.get("f") == "sum" for name, par in p["stages"])
-
-
 def _plan_pipe(case, allow_known=False):
     p, wrap = case["p"], bool(case.get("wrap", False))
     f27, address = pipe_kinds(p, wrap)
@@ -937,9 +895,6 @@ def _plan_pipe(case, allow_known=False):
     if address:
         raise core.Discard()
     xs_json = case["data"].get("xs", [])
-    if SUM_EXCLUSION and _pipe_uses_sum(p) and not allow_known:
-        if _has_float(xs_json) or _has_float(p["src"][1]) or type(p["sink"][1].get("start", 0)) not in (int, list):
-            raise core.Excluded()
     Markup = _setup()["Markup"]
 
     def dec(j):
@@ -954,12 +909,16 @@ def _plan_pipe(case, allow_known=False):
     def mk(env, wrapped):
         xs = dec(xs_json)
         out = {"xs": xs, "ob": (AsyncOb if wrapped else SyncOb)(xs), "fn": (AFn if wrapped else gdata.Fn)("fn"), "x": "ctx-x"}
+        if p["sink"][0] == "ucall":
+            ufn = (AFn if wrapped else gdata.Fn)("ufn")
+            setattr(ufn, p["sink"][1].get("flag", "unsafe_callable"), True)
+            out["ufn"] = ufn
         out.update(_helpers(wrapped))
         return out
 
     templates = dict(LIBS)
     templates["main"] = pipe_source(p)
-    # finding C09-EAGER: async unique / slice list their input when called, the sync ones when (and as far as) they are
+    # finding F41: async unique / slice list their input when called, the sync ones when (and as far as) they are
     # iterated.  Input class = evaluating the input of such a stage raises; decided on the sync side, before judging.
     prechecks = []
     for i, (name, _) in enumerate(p["stages"]):
@@ -1211,7 +1170,7 @@ def _pipe_cases():
             ty = nty
 
         def sink(t):
-            common = ["join", "join", "list", "list", "first", "for", "for", "for", "for", "twice", "afilt", "atest"]
+            common = ["join", "join", "list", "list", "first", "for", "for", "for", "for", "twice", "afilt", "atest", "ucall"]
             synconly = ["length", "min", "max", "last", "tojson", "in", "star", "unpack", "iterable", "print", "string", "sortjoin"]
             if t == "int":
                 common += ["sum", "sum", "sum"]
@@ -1234,6 +1193,8 @@ def _pipe_cases():
                 return ["in", {"v": pick([1, 2, "a", "A", 0])}]
             if k == "atest":
                 return ["atest", {"n": pick([1, 2])} if chance(40) else {}]
+            if k == "ucall":
+                return ["ucall", {"flag": pick(["unsafe_callable", "alters_data"])}]
             if k == "for":
                 if t in ("pair", "group") and chance(60):
                     v = 6
@@ -1367,7 +1328,7 @@ def floors(total, tier):
         if lab.get("for_v%d" % v, 0) < 10:
             msgs.append("for-loop sink variant %d < 10 times" % v)
     if total.excluded < 10:
-        msgs.append("F27 / C09-SUM / C09-EAGER input class generated (and excluded) fewer than 10 times")
+        msgs.append("F27 / F41 input class generated (and excluded) fewer than 10 times")
     if total.discarded > 0.25 * max(total.evaluations, 1):
         msgs.append("discarded %d of %d > 25%%" % (total.discarded, total.evaluations))
     return "; ".join(msgs) or None
